@@ -30,7 +30,8 @@ RULE = ("case kinds by index: (a) random plan of <=9 steps over width 0-5 "
         "as a tensor of two plans, called on opaque tokens/ints; (b) random "
         "Function.then/tensor/id expression trees; (c) sweep of structural "
         "maps; (d) cartesian axioms with random sub-diagrams.  Non-trivial = "
-        ">=2 steps or a structural map of width >=2; distinct by plan+inputs.")
+        ">=2 steps or a structural map of width >=2; distinct by plan+inputs."
+        "  Also: every plan diagram called three times (twin inputs equal but not the same value, compared by printed form too); Function objects called again; functions sharing __name__.")
 SIZES = {"quick": (16, 330), "thorough": (16, 9500)}
 TIMEOUT = {"quick": 600, "thorough": 5400}
 COVER = {
